@@ -8,7 +8,7 @@ CLAIMED = {
    text="TLC explores every interleaving of the de-duplication protocol (Dedup.tla: 2-3 callers, get/has/store, 1-2 ids) "
         "against the property's clauses as invariants plus liveness; TLC-generated behaviours are replayed on the real "
         "WriteDedupQueue through a gate scheduler and traces of the real code under random/PCT schedules are validated "
-        "by Trace_Dedup.tla with every invariant evaluated at every step; a caller that never returns is detected as a hang.",
+        "by Trace_Dedup.tla with every invariant evaluated at every step; a caller that never returns is detected as a hang. The real `chunk-server --store-file` is run in front of a slow counting upstream: bursts before and after SIGHUP reloads and requests that straddle one.",
    note="Trusts the gate scheduler's serialisation (hooks dq.* under build tag verif), SHA of chunk data as identity, and "
         "that upstream calls return. Bounded: <=3 callers exhaustively, <=6 callers sampled.",
    technique="TLA+ spec + TLC model checking; trace validation and behaviour replay via hook-gated scheduler",
@@ -18,7 +18,7 @@ CLAIMED = {
         "operation); TLC explores all boundary sets x zero intervals of small files x all interleavings x cancellation and checks that the "
         "aggregated index equals the single-stream chain of the rolling-hash rule. The real IndexFromFile runs under a gate scheduler "
         "on generated files; the instance (boundary and null positions) is computed by an independent implementation of the rule and "
-        "Trace_ParChunker.tla validates every event, every chunk and the returned index (IDs, sizes, parameters). The real `desync make` with 1/3/8 workers is compared with the library's single-stream chunk table (CliOutcome.tla).",
+        "Trace_ParChunker.tla validates every event, every chunk and the returned index (IDs, sizes, parameters). The real `desync make` with 1/3/8 workers is compared with the library's single-stream chunk table (CliOutcome.tla). `desync chunk -S` is compared with the library chunker from that offset.",
    note="Trusts the independent buzhash/rule oracle (cross-checked with the casync fixture) and SHA512/256 as leaves; read fragmentation of "
         "the single-stream Chunker is covered by the Chunker driver when listed in the evidence.",
    technique="TLA+ spec + TLC model checking; trace validation of the hook-instrumented implementation under randomised/PCT schedules",
@@ -33,14 +33,14 @@ CLAIMED = {
    design="4/C06"),
  "C07": dict(
    text="The same pipeline and parallel-chunker specifications with Cancel enabled in every state; the real entry points are cancelled at "
-        "every recorded event of small runs and the traces validated: success is only accepted when all work is complete.",
+        "every recorded event of small runs and the traces validated: success is only accepted when all work is complete. Commands under SIGINT/SIGTERM include `tar -i` reading a tar stream from a FIFO (signal before the stream or between members) and extract onto a destination name too long for a temporary file.",
    note="Covers the library entry points listed in the evidence (coverage.entry_points); CLI signal delivery is a thin wrapper around context cancellation.",
    technique="TLA+ spec + TLC model checking; trace validation with cancellation at every hook point",
    design="4/C07"),
  "C17": dict(
    text="VerifyIndex.tla: TLC evaluates the batch arithmetic for every K<=120 (700 thorough) and n<=64 (batches partition the index); the real "
         "VerifyIndex is run on blobs with a single altered byte, swapped chunks, truncation and extension and its verdict compared with the "
-        "specification's; the batches actually fed must cover every index entry. Blobs contain runs of identical consecutive chunks; the real `desync verify-index` is run on equal/altered/truncated/extended files (CliOutcome.tla).",
+        "specification's; the batches actually fed must cover every index entry. Blobs contain runs of identical consecutive chunks; the real `desync verify-index` is run on equal/altered/truncated/extended files (CliOutcome.tla). The empty blob's index is verified for every worker count.",
    note="SHA512/256 decides which ranges match (leaf).",
    technique="TLA+ spec evaluated by TLC; trace validation of the real verdict and batches",
    design="4/C17"),
@@ -50,7 +50,7 @@ CLAIMED = {
         "chunks and 2-3 workers. The real AssembleFile runs under a gate scheduler on generated scenarios (all seed kinds, prior contents, "
         "actions, worker counts, emulated block cloning with chunk sizes below and above the block size); after every worker step the "
         "whole target file is read back and Trace_Assemble.tla checks frame condition, self-seed invariant, plan well-formedness, the "
-        "verdict and the promised success. Panics and hangs of the real code are violations. The command glue is bound by running the real `desync extract` (seeds, seed directories, stale/deleted seeds, invalid-seed modes, in-place targets) and judging exit status and output by CliOutcome.tla.",
+        "verdict and the promised success. Panics and hangs of the real code are violations. The command glue is bound by running the real `desync extract` (seeds, seed directories, stale/deleted seeds, invalid-seed modes, in-place targets) and judging exit status and output by CliOutcome.tla. The index being extracted may lie in the seed directory, under four spellings of the two paths.",
    note="FICLONERANGE is emulated in-process (generic VFS remap rules); SHA512/256 is a leaf; block devices out of scope.",
    technique="TLA+ spec + TLC model checking; trace validation with per-step state read-back under randomised/PCT schedules",
    design="4/C01"),
@@ -58,7 +58,7 @@ CLAIMED = {
    text="ReadSeeker.tla states the property as an oracle over observable results (SeekOK/ReadOK) and models IndexPos and the mount "
         "handle structurally; TLC checks that every result of the model satisfies the oracle for all small indexes, op sequences and "
         "failing-ID sets. Random op sequences on the real IndexPos and the real mount file handle (also concurrent requests on one "
-        "handle over a gated store) are recorded and every result is judged by the same oracle (Trace_ReadSeeker.tla). The real `desync cat` with offsets and lengths is compared with the blob (CliOutcome.tla).",
+        "handle over a gated store) are recorded and every result is judged by the same oracle (Trace_ReadSeeker.tla). The real `desync cat` with offsets and lengths is compared with the blob (CliOutcome.tla). `cat` into a file, from stores with a missing, garbage or foreign chunk object, and under every progress setting is part of it.",
    note="No kernel FUSE mount is possible in the sandbox: the node's handle read function is called directly. Well-formed indexes assumed.",
    technique="TLA+ spec (property oracle + implementation-shaped model) checked by TLC; trace validation of recorded calls",
    design="4/C09"),
@@ -75,7 +75,7 @@ CLAIMED = {
    text="StoreChain.tla is an executable reference model of the documented routing / caching / repair / failover policy; TLC checks over every "
         "chain shape on three members and every content and health pattern that the model has the documented properties. Random chains of the real "
         "wrappers over fault-injecting members (in-memory and real LocalStores with corrupted files) run random histories; result class, members "
-        "called and member contents after every operation are compared with the model. Swap under load and concurrent failover run under the gate scheduler. Failover groups with all members but one failing run under the gate scheduler (hook after the switch). The chain the command line builds (`-s a -s b`, `a|b`, `-c`, `--cache-repair`, local and HTTP) is exercised with the real binary (CliOutcome.tla).",
+        "called and member contents after every operation are compared with the model. Swap under load and concurrent failover run under the gate scheduler. Failover groups with all members but one failing run under the gate scheduler (hook after the switch). The chain the command line builds (`-s a -s b`, `a|b`, `-c`, `--cache-repair`, local and HTTP) is exercised with the real binary (CliOutcome.tla). Members that answer 403/401, serve wrong objects or hold a damaged file are part of the failover families.",
    note="Failover-group members are assumed to hold the same chunks (documented precondition). Chains built from CLI location strings are covered through the wrapper constructors they call.",
    technique="TLA+ reference model checked by TLC; trace validation of random histories; scheduled concurrent scenarios",
    design="4/C11"),
@@ -83,7 +83,7 @@ CLAIMED = {
    text="NoBadDelivery is an invariant of the store-chain reference model (TLC, all small chains) and Stores.tla states the delivery rule per corruption "
         "class. Nine corruption classes of the stored object are applied behind real backends (LocalStore, RemoteHTTP + real handler, casync protocol "
         "with the real server and a raw peer), with verification on/off, through every wrapper, read twice, before or after an intact read; consumers "
-        "(AssembleFile, IndexPos, SparseFile) run over the poisoned store; every record is judged by the specification. The de-duplication and sparse-file clauses, which are about interleavings, are decided by including the C12 (Dedup.tla, gate scheduler) and C10 (SparseFile.tla, gated loader, transient failures) machinery.",
+        "(AssembleFile, IndexPos, SparseFile) run over the poisoned store; every record is judged by the specification. The de-duplication and sparse-file clauses, which are about interleavings, are decided by including the C12 (Dedup.tla, gate scheduler) and C10 (SparseFile.tla, gated loader, transient failures) machinery. Every backend - local, HTTP, casync protocol and S3 (in-memory endpoint) - is also probed for chunks that a caller holds while the store delivers others.",
    note="S3/SFTP/GCS backends are not exercised offline; zstd and SHA are executed leaves.",
    technique="TLA+ reference model checked by TLC; trace validation of corruption probes on real backends",
    design="4/C03"),
@@ -92,7 +92,7 @@ CLAIMED = {
         "proves round trip, rejection of every strict prefix, of oversize chunks and of digest mismatch, and canonicity under every single-token "
         "substitution for all indexes with <= 3-4 chunks. Files written by the real WriteTo are tokenised independently and must equal Encode; valid, "
         "truncated, substituted and digest-mismatched files go through IndexFromReader (incl. fragmenting readers), LocalIndexStore, RemoteHTTPIndex + "
-        "real handler and PUT, and verdict and table must be Decode's; casync fixtures must re-encode byte-identically.",
+        "real handler and PUT, and verdict and table must be Decode's; casync fixtures must re-encode byte-identically. Writers that accept only part of the file must make WriteTo / StoreIndex fail (TWFault); an index written to standard output by the real `make -` / `tar -i -` under every progress setting is the index (CliOutcome.tla).",
    note="S3/SFTP index stores are not exercised (same IndexFromReader). The tokeniser in the driver is trusted.",
    technique="TLA+ spec of the format with theorems checked by TLC; trace validation of written and read files",
    design="4/C04"),
@@ -100,7 +100,7 @@ CLAIMED = {
    text="HttpServer.tla states the property as a decision rule over a request row (RowOK) and an abstract model of both handlers; TLC checks the rule on the "
         "model for every configuration and request class. The complete request table (9216 rows, more strings per class in the thorough tier) is sent to "
         "the real handlers over a sandboxed store with sentinels outside it, with store calls logged and the sandbox snapshotted around every request; "
-        "every row is judged by RowOK. Doubly encoded paths are part of the table, and the real chunk-server / index-server processes are started with the authorization value given by flag, by environment, or not at all.",
+        "every row is judged by RowOK. Doubly encoded paths are part of the table, and the real chunk-server / index-server processes are started with the authorization value given by flag, by environment, or not at all. Mismatching, garbage and empty uploads go to the real server started with --skip-verify-write=false.",
    note="Handlers are driven in-process; the binaries add http.ServeMux path cleaning in front of them.",
    technique="TLA+ decision-table spec checked by TLC; exhaustive table replay on the real handlers validated by TLC",
    design="4/C15"),
@@ -115,7 +115,7 @@ CLAIMED = {
  "C16": dict(
    text="LocalStoreFS.tla states what prune and verify must and must not remove (PruneOK, VerifyOK) over a store directory as a set of typed files; TLC checks the "
         "walk as coded against PruneOK for every small directory. Random real directories (valid/invalid chunks of both formats, temporary files, junk, "
-        "chunk-named files in foreign directories) are handed to the real Prune/Verify (library and CLI) and what disappeared / was reported is judged by the spec. S3Store.Prune runs against an in-memory S3 endpoint (paginated listings, refused DELETEs) and is judged by the same PruneOK.",
+        "chunk-named files in foreign directories) are handed to the real Prune/Verify (library and CLI) and what disappeared / was reported is judged by the spec. S3Store.Prune runs against an in-memory S3 endpoint (paginated listings, refused DELETEs) and is judged by the same PruneOK. `desync verify -n 16` on a store with hundreds of invalid chunks must print one line per invalid chunk; S3 listings that are refused on the first or a later page must make Prune fail.",
    note="Local stores only; S3 and SFTP prune/verify are not reachable offline.",
    technique="TLA+ spec checked by TLC; trace validation of real prune/verify runs",
    design="4/C16"),
@@ -123,7 +123,7 @@ CLAIMED = {
    text="LocalStoreFS.tla models what a client configured for one format may see and touch; TLC checks that no operation changes files of the other format. "
         "Random histories of a compressed and an uncompressed client (LocalStore and HTTP handler+client) over one directory are compared step by step with the "
         "model, with the directory listed by a strict parser of casync's layout; every stored object is checked to be a single standard zstd frame of the chunk "
-        "(or the raw bytes), stores are cross-read between the klauspost and the libzstd build, and casync-written fixture stores are read with both. Chunks written with libzstd's streaming compressor (as casync does: no content size, 2 MiB window) are read with both builds.",
+        "(or the raw bytes), stores are cross-read between the klauspost and the libzstd build, and casync-written fixture stores are read with both. Chunks written with libzstd's streaming compressor (as casync does: no content size, 2 MiB window) are read with both builds. Two clients of one directory, one per format, store the same large chunk concurrently; an ssh store whose serving side is configured uncompressed is read through `desync pull`.",
    note="zstd framing and decoding are executed leaves (independent frame walker, two implementations).",
    technique="TLA+ spec checked by TLC; trace validation of histories on a shared directory; differential decoding with libzstd",
    design="4/C20"),
@@ -131,7 +131,7 @@ CLAIMED = {
    text="Unpack.tla is a path algebra (cleaning joins, symlink resolution through the tree built so far) plus the decoder and disk writer as coded; TLC proves "
         "Confined for every archive of <= 3 entries over a hostile name alphabet with name validation on, and shows the escape with it off (the defect F9, fixed). "
         "Hostile archives from an independent encoder (all of <= 2 entries, random longer ones, well-formed names in hostile orders such as symlink-then-directory) "
-        "are unpacked by the real UnTar/UnTarIndex as root into a sandbox whose surroundings are snapshotted before and after. Root entries of every kind (directory, file, symlink inside/outside) with the destination present or absent, symlink entries carrying extended attributes, and xattrs of everything outside the destination are part of the snapshot (finding F22 fixed).",
+        "are unpacked by the real UnTar/UnTarIndex as root into a sandbox whose surroundings are snapshotted before and after. Root entries of every kind (directory, file, symlink inside/outside) with the destination present or absent, symlink entries carrying extended attributes, and xattrs of everything outside the destination are part of the snapshot (finding F22 fixed). Entries that name the directory they are listed in (`/`, `.`, `./`, `a/..`) or have no filename element are used to swap the open directory for a symlink (top level and nested).",
    note="LocalFS only (the tar/mtree writers do not touch the filesystem). Symlinks created by the archive may point outside (that is allowed); following them is not.",
    technique="TLA+ spec checked by TLC over all small archives; trace validation of real unpack runs in a sandbox",
    design="4/C18"),
@@ -152,7 +152,7 @@ CLAIMED = {
         "and in place (a re-run fetches only what was not valid after the death). Binding: real StoreChunk calls interleaved by the gate scheduler with a directory "
         "snapshot at every step; children that SIGKILL themselves at step k or are limited to k bytes (RLIMIT_FSIZE); the real CLI under strace with every prefix of "
         "its file-system calls replayed on a model directory; the real CLI killed on entry to the k-th call of every syscall group; in-place extract killed at the "
-        "k-th chunk request and re-run against a counting HTTP store.",
+        "k-th chunk request and re-run against a counting HTTP store. One worker: every chunk the killed run had been given is in the destination; extracts with one- and two-chunk indexes and the large one also receive SIGINT/SIGTERM at the k-th call.",
    note="Process death only (the kernel's view survives), not power loss. strace's `when=k` counts per thread. Local stores only.",
    technique="TLA+ specs checked by TLC (with violating variants as witnesses); trace validation of scheduler-, strace- and kill-based observations of the real code",
    design="4/C08"),
@@ -161,7 +161,7 @@ CLAIMED = {
         "order, sorted children and xattrs, and every goodbye table (items = children's back-offsets/sizes/name hashes laid out as a complete BST in array form, "
         "tail item), and rebuilding the node list. TLC checks the BST layout for all n <= 200-600. Archives written by the real Tar from random trees built as "
         "root (all attribute kinds), from every fan-out, from disk and from tar streams, and casync-made fixtures, are tokenised independently and recognised; "
-        "the reconstructed node list must equal the source tree. The real `desync tar` onto an existing larger archive and with equivalent spellings of the source directory is followed by untar (CliOutcome.tla).",
+        "the reconstructed node list must equal the source tree. The real `desync tar` onto an existing larger archive and with equivalent spellings of the source directory is followed by untar (CliOutcome.tla). `tar -` and `untar --output-format gnu-tar -` on standard output (tree with a skipped node, every progress setting) must equal the file output.",
    note="SipHash-2-4 and the byte tokeniser are independent leaves in harness/oracle, validated on casync fixtures.",
    technique="TLA+ grammar/recogniser evaluated by TLC on element traces of real archives; BST layout checked by TLC",
    design="4/C13"),
